@@ -867,6 +867,8 @@ def gen_macro_scenario(rng, prof=None, tier='quick'):
     from .sysgen import num
     e = rng.choice(['big', 'little'])
     asz = rng.choice([8, 16, 16])
+    origin = rng.choice([0, 0x100])
+    tbl = ['tbl', origin + 0x40, origin + 0x7f]        # a zone narrower than the 256-byte page the program lives in
 
     def numeric(i):
         return {'id': f'n{i}', 'kind': 'numeric', 'code': None, 'pos': 'suffix', 'arg': {'size': asz, 'align': True, 'endian': None}, 'valid': False}
@@ -876,7 +878,7 @@ def gen_macro_scenario(rng, prof=None, tier='quick'):
 
     def empty(i, code):
         return {'id': f'e{i}', 'kind': 'empty', 'code': (code, 4), 'pos': 'suffix'}
-    isa = {'endian': e, 'zones': [], 'regs': list(REGS), 'sets': {'imm': [numeric(1)], 'rr': [regalt(2, 'a', 1), regalt(3, 'b', 2)]},
+    isa = {'endian': e, 'zones': [tbl], 'regs': list(REGS), 'sets': {'imm': [numeric(1)], 'rr': [regalt(2, 'a', 1), regalt(3, 'b', 2)]},
            'instrs': {}, 'macros': {}, 'n': 10}
 
     def sets_parser(names):
@@ -921,6 +923,10 @@ def gen_macro_scenario(rng, prof=None, tier='quick'):
     # invocation is rejected, not handed on to the later variant that would also accept it
     isa['macros']['mac5'] = [{'parser': spec_parser(1, [[regalt(11, 'a', 1)]]), 'steps': [{'mn': 'ldx', 'ops': [[('ph', 'ARG', 0)]]}]},
                              {'parser': sets_parser(['rr']), 'steps': [{'mn': 'mov', 'ops': [[('ph', 'OP', 0)]]}]}]
+    # a sliced address (low byte emitted, high byte must equal the instruction's own) confined to a zone inside the page
+    isa['sets']['sla'] = [{'id': 'sa1', 'kind': 'address', 'code': None, 'pos': 'suffix', 'arg': {'size': 8, 'align': True, 'endian': None},
+                           'zone': 'tbl', 'slice': True, 'msb': True}]
+    isa['instrs']['psh2'] = [variant(0xE4, 8, sets_parser(['sla']))]
     ph = ('ph', 'ARG', 0)
     forms = [[ph], [ph, ('tok', '*', t_op('OMul')), ('tok', '2', t_num(2))], [('tok', '3', t_num(3)), ('tok', '*', t_op('OMul')), ph],
              [ph, ('tok', '+', t_op('OAdd')), ('tok', '1', t_num(1))], [('tok', '9', t_num(9)), ('tok', '-', t_op('OSub')), ph],
@@ -934,7 +940,7 @@ def gen_macro_scenario(rng, prof=None, tier='quick'):
                              {'parser': spec_parser(1, [[empty(6, 7)]]), 'steps': [{'mn': 'tst', 'ops': []}, {'mn': 'swp', 'ops': []}]}]
     isa['macros']['mac2'] = [{'parser': spec_parser(2, [[regalt(7, 'b', 2), empty(8, 3)]]),
                               'steps': [{'mn': 'mov', 'ops': [[('ph', 'REG', 0)]]}, {'mn': 'ldx', 'ops': [[('tok', '7', t_num(7))]]}]}]
-    cfg = dict(addr_bits=16, endian=e, origin=rng.choice([0, 0x100]), page=1, terminator=0, embedded=False, zones=[],
+    cfg = dict(addr_bits=16, endian=e, origin=origin, page=1, terminator=0, embedded=False, zones=[list(tbl)],
                consts=[['K9', rng.choice([1, 5])], ['KM1', -1], ['KM2', -2]], data=[], syms=[], cli=[])
     labels = ['lbl1', 'lbl2', 'K9']
     stmts = []
@@ -954,7 +960,7 @@ def gen_macro_scenario(rng, prof=None, tier='quick'):
             return Txt(n, [t_lab(n)])
         return Txt(f'{n}+{b}', [t_lab(n), t_op('OAdd'), t_num(b)])
     kinds = ['dbl'] * 5 + ['mac1'] * 2 + ['mac2'] * 2 + ['swp', 'mac3', 'mac3', 'add3', 'add3', 'cmpq', 'cmpq', 'mac4', 'mac4', 'mac5', 'mac5',
-                                                          'ldx', 'tst']
+                                                          'ldx', 'tst', 'psh2', 'psh2']
     # a program is rejected as a whole by one unacceptable statement: at most one statement kind that may be unacceptable
     risky_left = 1 if rng.random() < 0.5 else 0
     for _ in range(rng.randint(2, 7)):
@@ -996,8 +1002,19 @@ def gen_macro_scenario(rng, prof=None, tier='quick'):
         elif k == 'ldx':
             x = small_expr()
             stmts.append(['asm', 'ldx', [[x.text, x.toks]]])
+        elif k == 'psh2':
+            inside = [tbl[1], tbl[2], tbl[1] + 5]
+            outside = [tbl[1] - 1, tbl[2] + 1, origin + 0x100 + 0x45, origin + 2]
+            v = rng.choice(inside + (outside if risky_left else []))
+            risky_left = 0 if v in outside else risky_left
+            stmts.append(['asm', 'psh2', [[f'${v:04x}', [t_num(v)]]]])
         else:
             stmts.append(['asm', 'tst', []])
+        if risky_left and stmts and stmts[-1][0] == 'asm' and stmts[-1][2] and rng.random() < 0.15:
+            # a stray comma: an operand with no text is an operand all the same, for macros as for instructions
+            ops = stmts[-1][2]
+            ops.insert(rng.choice([0, len(ops), len(ops)]), ['', []])
+            risky_left = 0
         if rng.random() < 0.3:
             c = [x for x in ('lbl1', 'lbl2') if x not in placed]
             if c:
